@@ -13,6 +13,7 @@ import StepModel.ComplexFuel
 import StepModel.ComplexBuildWF
 import StepModel.ComplexBuildOK
 import StepModel.ComplexMarks10
+import StepModel.ComplexComplete9
 /-!
 # C08 — complex instances are accepted exactly when the supertype constraints allow them
 
@@ -180,6 +181,15 @@ theorem C08_supports_answers_partial (c : Collect) (parts : List Name) (hc : ∀
   | ok b => exact ⟨b, rfl⟩
   | crash k => exact absurd h (h2 k)
   | outOfFuel => exact absurd h h1
+
+/-- the fuel hypothesis of `C08_supports_answers_partial`, discharged: it holds for **every** collect none of whose lists
+has more than 4096 choice combinations (`capT` = product over its OrLists of (alternatives + 2); e.g. no OrList at all, or
+up to four AND-ed ONEOFs of four alternatives) — the size of the lists does not matter (`szT ≤ 4·size`, and the default
+fuel grows with the size).  Beyond that the *model's* default fuel may run out where the real matcher still answers
+(after exponentially many rounds, notes defect 5); `C08_matches_terminates` then applies with an explicit fuel. -/
+theorem C08_supports_answers_capT_partial (c : Collect) (parts : List Name) (hc : ∀ h ∈ c, headWF h = true)
+    (hsm : ∀ h ∈ c, smallOrT h) (hcap : ∀ h ∈ c, capT h ≤ 4096) : ∃ b, supports c [] parts = .ok b :=
+  C08_supports_answers_partial c parts hc hsm (fuel_of_capT c hcap)
 
 /-- … and with multiply-inheriting members too, once the fuel also covers the list that `supports` joins for them
 (`hfj`; that list is well formed and its OrLists are short because the collect's are — proved inside): `supports`
@@ -382,6 +392,27 @@ theorem C08_accept_legal_partial {s : Schema} {lvl : Name → Nat} (W : ForestWF
   (C08_eval_legal_partial W fuel c hc parts h2).mp
     (C08_sound_partial c parts (collectOf_headWF s hx fuel c hc) hsm hs)
 
+/-- **Completeness of the matcher with OrLists** (partial: lists with pairwise distinct leaf names — i.e. every nesting
+of explicit ONEOF/AND/ANDOR, sub-supertypes ABSTRACT; excluded: the `OR(b, AND(b, …))` of a non-abstract sub-supertype,
+which repeats `b`, and requests with multiply-inheriting members).  If the request is, as a set, one of the name sets
+some list derives (`evalB`), `supports` — whenever it answers — accepts.  With distinct leaves every sub-list is alive
+(its members of the request are exactly one of its derivations) or dead (no leaf in the request): an OrList on the chosen
+path has exactly one alternative that counts, so `matchNonORs` + `matchORs` suffice; proved positively: every SimpleList on
+the path ends up holding its name (also after `OrList::matchORs` tried, unmarked and re-accepted the alternative), every list
+on the path counts, and MATCHALL reaches the head from the child that placed the last mark. -/
+theorem C08_complete_partial (c : Collect) (parts : List Name) (hc : ∀ h ∈ c, headWF h = true)
+    (hnd : ∀ h ∈ c, (leaves h).Nodup) (hsm : ∀ h ∈ c, smallOrT h) (b : Bool) (hs : supports c [] parts = .ok b)
+    (he : evalB c [] parts = true) : b = true :=
+  supports_complete c parts hc hnd hsm b hs he
+
+/-- **Soundness and completeness of the matcher on lists with distinct leaves, any nesting of OrLists**: the verdict of
+`supports` is the tree meaning (requests without multiply-inheriting members; the soundness direction holds without the
+distinct-leaves hypothesis, `C08_sound_partial`). -/
+theorem C08_sound_complete_oneof_partial (c : Collect) (parts : List Name) (hc : ∀ h ∈ c, headWF h = true)
+    (hnd : ∀ h ∈ c, (leaves h).Nodup) (hsm : ∀ h ∈ c, smallOrT h) (b : Bool) (hs : supports c [] parts = .ok b) :
+    b = true ↔ evalB c [] parts = true :=
+  ⟨fun hb => C08_sound_partial c parts hc hsm (hb ▸ hs), fun he => C08_complete_partial c parts hc hnd hsm b hs he⟩
+
 /-- **Every list exp2cxx's construction emits has the shape the matcher theorems assume.**  For every schema whose
 ONEOFs have at least one operand (`exprsOK` — the EXPRESS grammar) and every fuel, each list of `collectOf s fuel` is
 `headWF`: head = `AND(supertype, one sub-list)`, and no AND/ANDOR/OR list below is empty — through `processSubExp`
@@ -447,6 +478,40 @@ the emitted tree exactly when it is legal -/
 theorem C08_eval_legal_example (X : List Name) (h2 : ∃ a ∈ X, ∃ b ∈ X, a ≠ b) :
     evalB exOneofAndorTree [] X = true ↔ Legal exOneofAndor X = true :=
   C08_eval_legal_partial exForest 50 exOneofAndorTree C08_collectOf_example X h2
+
+/-- **The composition, one statement: the matcher model accepts exactly the legal instances.**  Hypotheses, all named:
+a single-supertype schema (`ForestWF`: acyclic, every entity at most one supertype, subtype lists and supertype
+declarations agree, expressions mention each subtype at most once, ABSTRACT entities have a subtype) without empty ONEOF
+(`exprsOK`); `c` is the collect exp2cxx's construction emits for it (`collectOf`); its OrLists are shorter than LISTEND
+(`smallOrT`) and its lists have pairwise distinct leaf names (`hnd`: every nesting of ONEOF/AND/ANDOR, sub-supertypes
+ABSTRACT); the instance names at least two different entities (`h2`; one-member sets are refused though legal,
+`C08_complete_witness`) and none with several supertypes (forest); `supports` answers (`hs`: no crash is proved, the fuel is
+sufficient by `C08_supports_answers_capT_partial`).  Then the answer is `true` **iff** `Spec.Legal s parts` — the property's
+own rule, which never looks at the tree: closed under supertypes, each member's ONEOF/AND/ANDOR expression (implicit
+subtypes ANDOR-ed on) satisfied over the subtypes present, ABSTRACT members have a subtype present, connected.
+The direction "accepted ⇒ legal" does not need `hnd` (`C08_accept_legal_partial`). -/
+theorem C08_accepts_iff_legal_partial {s : Schema} {lvl : Name → Nat} (W : ForestWF s lvl) (hx : s.exprsOK)
+    (fuel : Nat) (c : Collect) (hc : collectOf s fuel = some c) (hsm : ∀ h ∈ c, smallOrT h)
+    (hnd : ∀ h ∈ c, (leaves h).Nodup) (parts : List Name) (h2 : ∃ a ∈ parts, ∃ b ∈ parts, a ≠ b)
+    (b : Bool) (hs : supports c [] parts = .ok b) : b = true ↔ Legal s parts = true :=
+  (C08_sound_complete_oneof_partial c parts (collectOf_headWF s hx fuel c hc) hnd hsm b hs).trans
+    (C08_eval_legal_partial W fuel c hc parts h2)
+
+/-- the hypotheses are satisfiable on the property's title case, a schema with a ONEOF:
+`a SUPERTYPE OF (ONEOF(b, c) ANDOR d)` — for **every** instance with at least two parts the matcher model answers, and it
+answers `true` exactly for the legal ones (so `#1=(A()B()C());` is refused *because* it violates ONEOF, and
+`#1=(D()A()B());` is accepted because it is legal) -/
+theorem C08_accepts_iff_legal_example (parts : List Name) (h2 : ∃ a ∈ parts, ∃ b ∈ parts, a ≠ b) :
+    ∃ b, supports exOneofAndorTree [] parts = .ok b ∧ (b = true ↔ Legal exOneofAndor parts = true) := by
+  have hsm : ∀ h ∈ exOneofAndorTree, smallOrT h := by
+    intro h hh; simp only [exOneofAndorTree, List.mem_singleton] at hh; subst hh
+    simp only [smallOrT, smallOrTL, and_true, List.length_cons, List.length_nil]; decide
+  obtain ⟨b, hb⟩ := C08_supports_answers_partial exOneofAndorTree parts (by decide) hsm (by decide)
+  exact ⟨b, hb, C08_accepts_iff_legal_partial exForest (by
+    intro e he x hx
+    simp only [exOneofAndor, List.mem_cons, List.mem_nil_iff, or_false] at he
+    rcases he with rfl | rfl | rfl | rfl <;> simp at hx
+    subst hx; decide) 50 exOneofAndorTree C08_collectOf_example hsm (by decide) parts h2 b hb⟩
 
 -- ------------------------------------------------------------------ EntNode::sort (renamed parts)
 /-- with strict comparisons in `lastSmaller` (the source before fixes/C08-2) two equal names make `EntNode::sort`
